@@ -6439,9 +6439,15 @@ size_t ZSTD_compressStream2( ZSTD_CCtx* cctx,
             cctx->producedCSize += (U64)(output->pos - opos);
             if ( ZSTD_isError(flushMin)
               || (endOp == ZSTD_e_end && flushMin == 0) ) { /* compression completed */
+                /* same contract as the single-thread path (ZSTD_compressEnd_public) */
+                int const srcSizeWrong = (flushMin == 0)
+                                      && (cctx->pledgedSrcSizePlusOne != 0)
+                                      && (cctx->pledgedSrcSizePlusOne != cctx->consumedSrcSize + 1);
                 if (flushMin == 0)
                     ZSTD_CCtx_trace(cctx, 0);
                 ZSTD_CCtx_reset(cctx, ZSTD_reset_session_only);
+                RETURN_ERROR_IF(srcSizeWrong, srcSize_wrong,
+                                "error : pledgedSrcSize differs from the amount of data consumed");
             }
             FORWARD_IF_ERROR(flushMin, "ZSTDMT_compressStream_generic failed");
 
